@@ -9,52 +9,58 @@
 (* Retried is the set of fetches whose answer made the archiver retry or give up (5xx, 408, 425, 429):  *)
 (* they are captures like any other.  WaitRetried = FALSE is the pinned commit, which went on without    *)
 (* waiting for their records (repaired: it waits for every attempt).                                    *)
+(* The items of one level are fetched by concurrent goroutines (Start).  OwnFeedback = TRUE: each waits   *)
+(* for the signal of its OWN request; FALSE models goroutines that share one channel variable and so     *)
+(* wait for the request that was started last (the change seeded as C04 r4-m1).                         *)
 EXTENDS Integers, Sequences, FiniteSets, TLC
 
-CONSTANTS Items, Writers, SyncWait, Retried, WaitRetried
+CONSTANTS Items, Writers, SyncWait, Retried, WaitRetried, OwnFeedback
 Outcomes == {"accept", "reject"}
 
-VARIABLES ipc,        \* item: "fetch" | "captured" | "decided" | "queued" | "written" | "dropped" (library side)
+VARIABLES ipc,        \* item: "idle" | "fetch" | "captured" | "decided" | "queued" | "written" | "dropped" (library side)
           apc,        \* archiver side of the item: "doing" | "waiting" | "archived"
           policy,     \* what the discard chain says about the item's response
           fb,         \* feedback signalled
           wq,         \* writer queue (sequence of items)
           whand,      \* writer -> item being written
           disk,       \* items whose records are on disk
-          finished
-vars == <<ipc, apc, policy, fb, wq, whand, disk, finished>>
+          finished,
+          lastStart   \* the item whose request was started last
+vars == <<ipc, apc, policy, fb, wq, whand, disk, finished, lastStart>>
 
-Init == /\ ipc = [i \in Items |-> "fetch"] /\ apc = [i \in Items |-> "doing"]
+Init == /\ ipc = [i \in Items |-> "idle"] /\ lastStart = "none" /\ apc = [i \in Items |-> "doing"]
         /\ policy \in [Items -> Outcomes]
         /\ fb = [i \in Items |-> FALSE] /\ wq = <<>> /\ whand = [w \in Writers |-> "none"]
         /\ disk = {} /\ finished = FALSE
 
+Start(i) == /\ ipc[i] = "idle" /\ ipc' = [ipc EXCEPT ![i] = "fetch"] /\ lastStart' = i
+            /\ UNCHANGED <<apc, policy, fb, wq, whand, disk, finished>>
 \* the response has been fully read by the archiver (ProcessBody reads to EOF): the capture is complete
 Capture(i) == /\ ipc[i] = "fetch" /\ ipc' = [ipc EXCEPT ![i] = "captured"]
               /\ apc' = [apc EXCEPT ![i] = IF SyncWait /\ (i \notin Retried \/ WaitRetried) THEN "waiting" ELSE "archived"]
-              /\ UNCHANGED <<policy, fb, wq, whand, disk, finished>>
+              /\ UNCHANGED <<policy, fb, wq, whand, disk, finished, lastStart>>
 LibDiscard(i) == /\ ipc[i] = "captured"
                  /\ IF policy[i] = "reject"
                     THEN ipc' = [ipc EXCEPT ![i] = "dropped"] /\ fb' = [fb EXCEPT ![i] = TRUE] /\ UNCHANGED wq
                     ELSE ipc' = [ipc EXCEPT ![i] = "queued"] /\ wq' = Append(wq, i) /\ UNCHANGED fb
-                 /\ UNCHANGED <<apc, policy, whand, disk, finished>>
+                 /\ UNCHANGED <<apc, policy, whand, disk, finished, lastStart>>
 WriterTake(w) == /\ whand[w] = "none" /\ wq # <<>>
                  /\ whand' = [whand EXCEPT ![w] = Head(wq)] /\ wq' = Tail(wq)
-                 /\ UNCHANGED <<ipc, apc, policy, fb, disk, finished>>
+                 /\ UNCHANGED <<ipc, apc, policy, fb, disk, finished, lastStart>>
 WriterWrite(w) == /\ whand[w] # "none"
                   /\ disk' = disk \cup {whand[w]}
                   /\ ipc' = [ipc EXCEPT ![whand[w]] = "written"]
                   /\ fb' = [fb EXCEPT ![whand[w]] = TRUE]
                   /\ whand' = [whand EXCEPT ![w] = "none"]
-                  /\ UNCHANGED <<apc, policy, wq, finished>>
-Feedback(i) == /\ apc[i] = "waiting" /\ fb[i]
+                  /\ UNCHANGED <<apc, policy, wq, finished, lastStart>>
+Feedback(i) == /\ apc[i] = "waiting" /\ fb[IF OwnFeedback THEN i ELSE lastStart]
                /\ apc' = [apc EXCEPT ![i] = "archived"]
-               /\ UNCHANGED <<ipc, policy, fb, wq, whand, disk, finished>>
+               /\ UNCHANGED <<ipc, policy, fb, wq, whand, disk, finished, lastStart>>
 Finish == /\ ~finished /\ \A i \in Items : apc[i] = "archived"
           /\ finished' = TRUE
-          /\ UNCHANGED <<ipc, apc, policy, fb, wq, whand, disk>>
+          /\ UNCHANGED <<ipc, apc, policy, fb, wq, whand, disk, lastStart>>
 
-Next == (\E i \in Items : Capture(i) \/ LibDiscard(i) \/ Feedback(i)) \/ (\E w \in Writers : WriterTake(w) \/ WriterWrite(w)) \/ Finish
+Next == (\E i \in Items : Start(i) \/ Capture(i) \/ LibDiscard(i) \/ Feedback(i)) \/ (\E w \in Writers : WriterTake(w) \/ WriterWrite(w)) \/ Finish
 Spec == Init /\ [][Next]_vars /\ WF_vars(Next)
 
 StoredBeforeFinish == finished => \A i \in Items : policy[i] = "accept" => i \in disk
